@@ -121,3 +121,24 @@ func VerifC06_ReattachById() {
 	}
 	sym.Reach("reattached")
 }
+
+// VerifC07_KeyValuesAnyBytes: key-field values become Prometheus label values
+// when a key set is first seen; arbitrary bytes (invalid UTF-8 included) must
+// not crash the orchestrator.
+//
+//verif:reach done
+func VerifC07_KeyValuesAnyBytes() {
+	a0, a1 := verifKeyValue("app", 2, false), verifKeyValue("level", 2, false)
+	st := &verifStarter{}
+	o := NewOrchestrator(logger.Root(), verifSchema, []string{"app", "level"}, "t.$app", fakes.NewMetrics(), func(l logger.Logger, m promreg.MetricCreator,
+		input <-chan []*base.LogRecord, bufferID string, outputTag string, onStopped func()) {
+		// what every pipeline does first: create its counters under the key-set prefix
+		base.NewLogProcessCounter(m, verifSchema, nil, []string{"out"})
+		st.start(l, m, input, bufferID, outputTag, onStopped)
+	}, nil)
+	sink := o.NewSink("client", 7)
+	sink.Accept([]*base.LogRecord{verifSchema.NewTestRecord1(base.LogFields{a0, a1, "m"})}) // obligation: no panic
+	sink.Close()
+	sym.Assert(len(st.pipes) == 1, "the record gets its pipeline")
+	sym.Reach("done")
+}
